@@ -1,5 +1,6 @@
 import SdModel.Props.C11
 import SdModel.Props.C19
+import SdModel.Props.C12
 
 /-!
 # C16 — feature selection never changes diff/apply semantics
@@ -34,5 +35,25 @@ theorem roundtrip_any_order {α : Type} [DecidableEq α] (prev prev' cur cur' : 
 /-- enabling `debug_asserts` cannot introduce a panic in the comparison -/
 theorem debug_asserts_inert {α : Type} [DecidableEq α] (prev cur : List α) : (hashcmpA Gen.fewMax prev cur).2 = true :=
   C11.debug_asserts_unreachable prev cur
+
+/-- the same for the flat map-like comparison (maps: unique keys), both equality modes -/
+theorem debug_asserts_inert_map {κ ν : Type} [DecidableEq κ] [DecidableEq ν] (prev cur : List (κ × ν))
+    (hp : UMap.UniqueKeys prev) (hc : UMap.UniqueKeys cur) (b : Bool) : (UMap.hashcmpA prev cur b).2 = true := by
+  obtain ⟨p1, p2, _, _⟩ := UMap.coll_unique b prev hp
+  obtain ⟨c1, c2, _, _⟩ := UMap.coll_unique b cur hc
+  rw [UMap.hashcmpA_eq]
+  split
+  · rfl
+  · obtain ⟨_, l2, l3, _, l5, _⟩ := UMap.loop1_spec (UMap.coll b cur) (UMap.coll b prev) c1 p1 c2 p2
+    obtain ⟨_, _, _, _, r5⟩ := UMap.rest_spec _ l2 l3
+    simp only [l5, r5, Bool.and_self]
+
+/-- hasher independence, flat map-like: the diff computed from (prev, cur) applied to ANY list representing the
+same map as prev (any iteration order) gives a map equal to cur -/
+theorem hasher_independent_map {κ ν : Type} [DecidableEq κ] [DecidableEq ν] (prev cur base : List (κ × ν))
+    (hp : UMap.UniqueKeys prev) (hc : UMap.UniqueKeys cur) (hb : UMap.UniqueKeys base)
+    (hbp : ∀ k, UMap.plookup base k = UMap.plookup prev k) (b : Bool) (d : UMap.Diff κ ν)
+    (h : UMap.hashcmp prev cur b = some d) (k : κ) : UMap.plookup (UMap.apply base d) k = UMap.plookup cur k :=
+  (C12.roundtrip_follower prev cur base hp hc hb hbp b d h).2 k
 
 end C16
